@@ -235,7 +235,12 @@ class ExprMixin:
                 return SReal(z3.If(b, tx, ty))
             return SInt(z3.If(b, tx, ty))
         if ops.is_strlike(x) and ops.is_strlike(y):
-            return SStr(z3.If(b, ops.str_term(x), ops.str_term(y)))
+            return SStr(z3.If(b, ops.str_term(x), ops.str_term(y)),
+                        optional=bool(getattr(x, "optional", False) or getattr(y, "optional", False)))
+        if (x is None and ops.is_strlike(y)) or (y is None and ops.is_strlike(x)):      # an optional string
+            tx = z3.IntVal(-1) if x is None else ops.str_term(x)
+            ty = z3.IntVal(-1) if y is None else ops.str_term(y)
+            return SStr(z3.If(b, tx, ty), optional=True)
         if isinstance(x, SData) or isinstance(y, SData):
             d = x if isinstance(x, SData) else y
             return SData(z3.If(b, d.ty.unwrap(x, self.ctx), d.ty.unwrap(y, self.ctx)), d.ty)
@@ -500,6 +505,9 @@ class ExprMixin:
             return self.call_method(base, "__getitem__", [idx], {}, node)
         if isinstance(base, str) and isinstance(idx, int):
             return base[idx]
+        if isinstance(base, (str, SStr)) and isinstance(idx, (SSlice, slice)) and idx.start == 1 and idx.stop == -1:
+            from .opaque import ufun           # s[1:-1]: the text without its first and last character
+            return SStr(ufun("str.unquote", z3.IntSort(), z3.IntSort())(ops.str_term(base)))
         raise Unsupported(f"{self.frame.qualname}:{self.line(node)} subscript on {base!r}")
 
     def concretize(self, v, candidates=None):
@@ -655,6 +663,8 @@ class ExprMixin:
         h = getattr(v, "iterate", None)
         if h is not None:
             return h(self)
+        if isinstance(v, SData) and getattr(v.ty.dt, "iter_model", None) is not None:
+            return v.ty.dt.iter_model(self, v)       # a list-like datatype viewed as (length, element at index)
         if isinstance(v, range):
             return list(v)
         raise Unsupported(f"{self.frame.qualname}:{self.line(node)} iteration over {v!r}")
